@@ -1,6 +1,7 @@
 import SdJwt.Lemmas.Strip
 import SdJwt.Lemmas.RestoreAll
 import SdJwt.Lemmas.Complete
+import SdJwt.Lemmas.MarkInv
 /-!
 # C01 — issuance round trip returns exactly the original claims and their paths
 
@@ -76,3 +77,64 @@ theorem C01_roundtrip_claims (env : Env) (T : MJ) (strs : List String) (inv : Tr
     ∃ c ps, restoreAll env T.payload strs = .ok (c, ps) ∧ removeAll c = T.plain := by
   obtain ⟨c, ps, h, _⟩ := restoreAll_complete env T strs inv hdec hnd hacc
   exact ⟨c, ps, h, C01_restore_all env T strs inv (fun s hs d hf => (hacc s hs d hf).1) c ps h hall⟩
+
+/-- **C01, issuer and holder composed (T-issue ∘ T-restore ∘ strip).** For every conformant
+claims tree `T` (in particular every plain claims tree: nothing marked), every list of path
+strings, every digest function under which marking is defined (each path reaches a not yet hidden
+node — nested before enclosing — and each digest is new), and the issuer's disclosures presented
+as strings in ANY order: the issuer model's working copy is `Tn.payload`; the holder model accepts
+it with those strings; and what it returns strips to exactly the original claims `T.plain`. -/
+theorem C01_issue_then_hold (env : Env) (mk : Nat → Option String → J → String)
+    (paths : List String) (addr : List (List String × String)) (T Tn : MJ) (ds : List SDisc)
+    (inv : TreeInv T) (hclear : T.allMarks = []) (hp : ParsedAll paths addr)
+    (h : markAll mk 0 addr T = some (Tn, ds)) (strs : List String)
+    (hstr : ∀ s ∈ strs, ∃ e ∈ ds, fromBase64 env s = .ok ⟨s, e.digest, e.key, e.value⟩)
+    (hnd : (strs.map env.hash).Nodup)
+    (hall : ∀ e ∈ ds, ∃ s ∈ strs, env.hash s = e.digest) :
+    ∃ c ps, applyPaths mk 0 T.payload paths = .ok (Tn.payload, ds.map toSrc) ∧
+      restoreAll env Tn.payload strs = .ok (c, ps) ∧ removeAll c = T.plain := by
+  obtain ⟨hissue, _, hplain⟩ := applyPaths_markAll mk paths addr 0 T Tn ds inv.wf hp h
+  obtain ⟨c, ps, hr, hc⟩ := issue_restore env mk addr T Tn ds inv h strs hstr hnd
+  refine ⟨c, ps, hissue, hr, ?_⟩
+  rw [hc, ← hplain]
+  apply MJ.project_congr
+  intro g hg
+  obtain ⟨_, _, pm, _, _⟩ := markAll_inv mk addr 0 T Tn ds inv h
+  have : g ∈ ds.map (·.digest) := by simpa [hclear] using pm.subset hg
+  obtain ⟨e, he, rfl⟩ := List.mem_map.mp this
+  obtain ⟨s, hs, hh⟩ := hall e he
+  show (strs.any fun s => decide (env.hash s = e.digest)) = true
+  simp only [List.any_eq_true, decide_eq_true_eq]
+  exact ⟨s, hs, hh⟩
+
+/-- non-vacuity of `C01_issue_then_hold`: claims `{"a":1,"n":["x","y"]}`, paths `/n/1` then `/a`,
+digest function "dg<i>", the identity as string hash, and the two disclosures presented in the
+reverse order satisfy every hypothesis -/
+example :
+    let T : MJ := .obj (.clear "a" (.leaf (.num 1 0))
+                    (.clear "n" (.arr (.clear (.leaf (.str "x")) (.clear (.leaf (.str "y")) .nil))) .nil)) none
+    let mk : Nat → Option String → J → String := fun i _ _ => "dg" ++ toString i
+    let env : Env := { hash := id, decodeDisc := fun s =>
+      if s = "dg0" then some (.arr [.str "s0", .str "y"])
+      else if s = "dg1" then some (.arr [.str "s1", .str "a", .num 1 0]) else none }
+    let addr : List (List String × String) := [(["n"], "1"), ([], "a")]
+    ∃ Tn ds, TreeInv T ∧ T.allMarks = [] ∧ ParsedAll ["/n/1", "/a"] addr ∧
+      markAll mk 0 addr T = some (Tn, ds) ∧
+      (∀ s ∈ ["dg1", "dg0"], ∃ e ∈ ds, fromBase64 env s = .ok ⟨s, e.digest, e.key, e.value⟩) ∧
+      (["dg1", "dg0"].map env.hash).Nodup ∧ (∀ e ∈ ds, ∃ s ∈ ["dg1", "dg0"], env.hash s = e.digest) := by
+  refine ⟨_, _, ⟨?_, ?_, ?_⟩, rfl, ?_, rfl, ?_, ?_, ?_⟩
+  · simp [MJ.WF, MMems.WF, MElems.WF, MMems.keysGt, MMems.marks, J.scalar]
+  · simp [MJ.digests, MMems.digests, MElems.digests]
+  · simp [MJ.allMarks, MMems.allMarks, MElems.allMarks]
+  · exact ⟨parsed_renderPath ["n"] "1", parsed_renderPath [] "a", trivial⟩
+  · intro s hs
+    simp only [List.mem_cons, List.not_mem_nil, or_false] at hs
+    rcases hs with rfl | rfl
+    · exact ⟨⟨"dg1", some "a", .num 1 0⟩, by simp; exact ⟨by decide, rfl⟩, by simp [fromBase64]⟩
+    · exact ⟨⟨"dg0", none, .str "y"⟩, by simp; exact ⟨by decide, rfl⟩, by simp [fromBase64]⟩
+  · decide
+  · intro e he
+    simp only [List.mem_cons, List.not_mem_nil, or_false] at he
+    rcases he with rfl | rfl
+    · exact ⟨"dg0", by simp, rfl⟩
+    · exact ⟨"dg1", by simp, rfl⟩
